@@ -480,6 +480,11 @@ def apply_op(mdib, op, env: Env | None = None):
     except rej as ex:
         if in_body[0]:
             raise OpRejected(f'{type(ex).__name__}: {ex}') from ex
+        from sdc11073.exceptions import ApiUsageError
+        if isinstance(ex, ApiUsageError):
+            # the commit itself refused the transaction (explicit API refusal before anything was changed);
+            # any other exception type from a commit is a failed commit and propagates
+            raise OpRejected(f'commit refused: {ex}') from ex
         raise
     finally:
         if op.get('prefetch') and env.cache is not None:
